@@ -91,6 +91,7 @@ type GhostDecl struct {
 }
 
 type Contracts struct {
+	Bounded   []*BoundedCheck
 	Guarded   map[string]string // "Struct.field" -> mutex field
 	Ghosts    map[string]*GhostDecl
 	Funcs     map[string]*FuncSpec // key: pkg + "::" + Key
@@ -332,6 +333,14 @@ func (c *Contracts) Load(path string, defaultPkg string) error {
 				return fail(fmt.Errorf("duplicate define %s", d.Name))
 			}
 			c.Defines[d.Name] = d
+			cur = nil
+		case "bounded":
+			props, r2 := takeProps(rest)
+			bc, err := parseBounded(r2, pkg, where, props)
+			if err != nil {
+				return fail(err)
+			}
+			c.Bounded = append(c.Bounded, bc)
 			cur = nil
 		case "guarded":
 			// guarded Struct.field by mu
